@@ -39,7 +39,7 @@ CLAIMED = {
    text="syncRDBFile and restoreRDBFile with the loader replaced by a pre-filled closed channel of m <= 3 entries (symbolic db, key, one Lua script entry, one failing restore), 1..2 workers (3 thorough), per-worker connect failure, filters and target.db: under every distribution of entries over workers and interleaving within the bound each passing entry is restored exactly once on a connection whose selected database is the entry's (or target.db), filtered ones never, success only after the channel is drained, a failed restore or connect is reported",
    note=NOTE_COMMON + "RestoreRdbEntry is replaced by a recording stub here (its own behaviour is C02); preemption bound 1; time.After never fires"),
  "C09": dict(
-   text="ring offset lemmas (roffset/woffset) for arbitrary 64-bit positions; one-step refinement of memBuffer/fileBuffer readSome/writeSome from an arbitrary valid symbolic state against a ghost stream; sequential close rules on the real pipe; protocol runs with a writer goroutine and the reader in the main goroutine where every interleaving at mutex/cond/channel granularity (preemption bound 2, thorough 3) is a branch of the search, with deadlock detection and an explicit hand-shake so that wake-up must come from progress, not from close; a writer blocked with k bytes pending must refill the ring after every shorter read",
+   text="ring offset lemmas (roffset/woffset) for arbitrary 64-bit positions; one-step refinement of memBuffer/fileBuffer readSome/writeSome from an arbitrary valid symbolic state against a ghost stream; sequential close rules on the real pipe; protocol runs with a writer goroutine and the reader in the main goroutine where every interleaving at mutex/cond/channel granularity (preemption bound 2, thorough 3) is a branch of the search, with deadlock detection and an explicit hand-shake so that wake-up must come from progress, not from close; a writer blocked with k bytes pending must refill the ring after every shorter read, and a writer blocked on a full ring is released by the reader's close with the reader's error; zero-length reads never report the writer's close before the drain",
    note=NOTE_COMMON + "concrete ring sizes in the lemmas (a symbolic size is not decided within 60 s by any back end); step lemmas on an 8-byte ring; stream-length induction on paper; sync.Mutex/Cond/WaitGroup are engine primitives; schedule-dependent counterexamples are replayed by engine-concrete re-execution"),
  "C16": dict(
    text="dbRumperExecutor.exec with fetcher, writer, receiver and the statistics loop as goroutines against a model source (INFO keyspace, SELECT, pipelined DUMP/PTTL over 2 databases, 1..2 scan pages incl. an empty one, keys that vanished before DUMP, no-expiry and symbolic positive PTTL, symbolic payloads, big-key expansion through RestoreBigkey) and two model-target connections sharing a keyspace, batch sizes 1..2, key_exists none/rewrite, target.db, db and key filters, big and ordinary keys mixed in a non-zero database; the key-file scanner alone: every passing existing key arrives with payload/elements, ttl (none stays none) and database; vanished keys are skipped; the executor terminates (no deadlock)",
@@ -51,7 +51,7 @@ CLAIMED = {
    text="offset lemmas (roffset/woffset) for arbitrary 64-bit positions; one-step refinement of the memory and file backed stores (readSomeAt from an arbitrary offset and write position: exact bytes or ErrInvalidOffset exactly when overwritten/future; writeSome; dataRange) against a ghost stream; sequential API behaviour (Reader, SeekTo/IsValid, wrap beyond capacity, close); protocol runs with one writer and up to two blocked readers under every interleaving (Broadcast wake-up, close wakes all with an error, no deadlock)",
    note=NOTE_COMMON + "concrete ring sizes in the lemmas; step lemmas on an 8-byte ring; induction over histories on paper; sync primitives are engine primitives; *os.File is a byte-store stub in the file flavour"),
  "C19": dict(
-   text="information flow decided by the solver: source and target passwords are unconstrained symbolic strings; every log call reached (sync start incl. constructor, retry bookkeeping, topology discovery with every outcome, checkpoint load, failing PSYNC and restart; checkpoint loader; slot supervisor) is rendered with a model of fmt's %v/%+v/%s traversal, and for each rendered line, each GetExtraInfo value (restart counter 0..3) and the GetSafeOptions copy — both also as the JSON document encoding/json would produce (exported fields, pointers followed, String() not consulted) — and CmdSync.Main's start-up, the query 'exists a password value not contained in the text' must be satisfiable; unsat = the password flows into the output",
+   text="information flow decided by the solver: source and target passwords are unconstrained symbolic strings; every log call reached (sync start incl. constructor, retry bookkeeping, topology discovery with every outcome, checkpoint load, failing PSYNC and restart; checkpoint loader; slot supervisor) is rendered with a model of fmt's %v/%+v/%s traversal, and for each rendered line, each GetExtraInfo value (restart counter 0..3) and the GetSafeOptions copy — both also as the JSON document encoding/json would produce (exported fields, pointers followed, String() not consulted) — and CmdSync.Main's start-up, the latency producer of a cluster source (client creation or commands failing), a server that echoes the auth command's arguments (through the real OpenNetConn/AuthPassword), the query 'exists a password value not contained in the text' must be satisfiable; unsat = the password flows into the output",
    note=NOTE_COMMON + "the fmt model (struct/pointer/slice/map traversal, Error/String methods) is engine code and trusted; main (does not type-check), the HTTP layer and third-party logging are outside; sendPSyncCmd and the metric registry are stubbed"),
  "C20": dict(
    text="getRedisNodeState on INFO text with symbolic filler against a reference role parser (regular expressions evaluated symbolically over the text), and GetSlotState/recursiveGetSlotState with an injected connection factory whose outcome per node and per retry round (connect error, command error, master, slave, no role, role not at line start) is a solver-visible choice: chosen source reported master in the deciding round, every other known node listed once as replica, erroring nodes never chosen, exactly maxRetries+1 rounds then an error when no master exists",
